@@ -99,7 +99,7 @@ def handler_cache_sites(prog):
     sites = []
     for cls in prog.all_classes():
         for cname, cval in cls.assigns.items():
-            if "cache" not in cname.lower():
+            if not ("cache" in cname.lower() or (isinstance(cval, ast.Dict) and not cval.keys) or norm(cval) == "dict()"):
                 continue
             init = cls.methods.get("__init__")
             if init is None:
@@ -151,7 +151,7 @@ def run(ctx) -> Report:
     prog = ctx.prog
     sites = handler_cache_sites(prog)
     if len(sites) < 2:
-        raise AnalysisError(f"found {len(sites)} class-level handler caches, expected at least 2 (MultiFunction, Transformer)")
+        rep.info("C20-cache", "ufl", f"{len(sites)} class-level handler caches of the shape this clause knows (a class-level dict read in __init__): C20-late decides by interpretation")
     covered_tables = set()
     for cls, cname, init, fetches, kind in sites:
         mod = cls.module
@@ -170,7 +170,7 @@ def run(ctx) -> Report:
                     break
             what = f"{cls.name}.{cname}"
             if rebuild is None or var is None:
-                rep.violation("C20-cache", init, f"{what}.get({key})", f"{what}: cannot find the rebuild-on-miss branch for the fetched entry")
+                rep.info("C20-cache", init, f"{what}: no rebuild-on-miss branch of the shape this clause knows; C20-late decides by interpretation")
                 continue
             # is the cached value a per-typecode table? (built from the registry)
             uses_registry = any(is_live_registry_expr(prog, mod, n) or snapshot_origin(prog, mod, n) for n in ast.walk(rebuild) if isinstance(n, (ast.Attribute, ast.Name, ast.Call)))
@@ -187,7 +187,11 @@ def run(ctx) -> Report:
                 for x, y in ((a, b), (b, a)):
                     if mentions(x, var) and "len" in norm(x) and is_live_registry_expr(prog, mod, y):
                         ok_valid = True
-            if ok_valid:
+            # a validity test of another shape (a method of the entry, a helper function applied to it): not this clause's
+            opaque = [n for n in ast.walk(rebuild.test) if isinstance(n, ast.Call) and norm(n.func) != "len" and any(mentions(x, var) for x in [n.func] + list(n.args))]
+            if not ok_valid and opaque:
+                rep.info("C20-cache", (init, rebuild), f"{what}: the fetched entry `{var}` is validated through `{norm(opaque[0])}`; C20-late decides by interpretation")
+            elif ok_valid:
                 rep.ok("C20-cache", (init, rebuild), f"{what}: fetched entry `{var}` is re-validated against the live registry size on every read")
             else:
                 rep.violation(
